@@ -240,6 +240,7 @@ func runShard(id string, sp spec, bin, work string, idx, nsh int, tier string, s
 	_ = os.MkdirAll(dir, 0o755)
 	skipPath := filepath.Join(dir, "skip.txt")
 	journal := filepath.Join(dir, "journal.txt")
+	doneCases := map[string]int64{}
 	for attempt := 0; ; attempt++ {
 		fragPath := filepath.Join(dir, fmt.Sprintf("frag%d.json", attempt))
 		logPath := filepath.Join(dir, fmt.Sprintf("log%d.txt", attempt))
@@ -266,6 +267,7 @@ func runShard(id string, sp spec, bin, work string, idx, nsh int, tier string, s
 			"VERIF_JOURNAL="+journal,
 			"VERIF_SKIP="+skipPath,
 			fmt.Sprintf("VERIF_ATTEMPT=%d", attempt),
+			"VERIF_DONE="+mustJSON(doneCases),
 			"GORACE=halt_on_error=0 history_size=3",
 			"GOTRACEBACK=all",
 		)
@@ -292,6 +294,9 @@ func runShard(id string, sp spec, bin, work string, idx, nsh int, tier string, s
 		fr, ferr := readFrag(fragPath)
 		if ferr == nil {
 			res.frags = append(res.frags, fr)
+			for k, v := range fr.Tests {
+				doneCases[k] += v
+			}
 		}
 		if res.timedOut {
 			return res
@@ -314,7 +319,7 @@ func runShard(id string, sp spec, bin, work string, idx, nsh int, tier string, s
 		}
 		d.Class, d.Sig = classifyDeath(d.LogTail)
 		res.deaths = append(res.deaths, d)
-		if !sp.Isolate || d.Journal == "" || attempt >= 60 {
+		if !sp.Isolate || d.Journal == "" || attempt >= 400 {
 			return res
 		}
 		// exclude the open case and restart with the same seed
@@ -322,6 +327,11 @@ func runShard(id string, sp spec, bin, work string, idx, nsh int, tier string, s
 		fmt.Fprintln(f, d.Journal)
 		f.Close()
 	}
+}
+
+func mustJSON(v any) string {
+	b, _ := json.Marshal(v)
+	return string(b)
 }
 
 func readFrag(p string) (fragment, error) {
@@ -347,7 +357,7 @@ func tail(path string, n int) string {
 	// find the fault header: a fatal fault wins over race reports
 	first := -1
 	for i, l := range lines {
-		if strings.HasPrefix(l, "fatal error:") || strings.HasPrefix(l, "panic:") || strings.HasPrefix(l, "runtime: out of memory") || strings.HasPrefix(l, "runtime: goroutine stack exceeds") {
+		if strings.HasPrefix(l, "fatal error:") || strings.HasPrefix(l, "panic:") || strings.HasPrefix(l, "runtime: out of memory") || strings.HasPrefix(l, "runtime: goroutine stack exceeds") || strings.HasPrefix(l, "VERIF-HANG") {
 			first = i
 			break
 		}
@@ -384,6 +394,8 @@ var reAlloc = regexp.MustCompile(`cannot allocate (\d+)-byte block`)
 func classifyDeath(log string) (class, sig string) {
 	frame := harness.TopRepoFrame(stripArgs(log))
 	switch {
+	case strings.Contains(log, "VERIF-HANG"):
+		return "hang", "hang"
 	case strings.Contains(log, "fatal error: runtime: out of memory") || strings.Contains(log, "fatal error: out of memory") || strings.Contains(log, "runtime: out of memory"):
 		class = "oom-small"
 		if m := reAlloc.FindStringSubmatch(log); m != nil {
@@ -446,6 +458,7 @@ func merge(id string, sp spec, tier string, seed uint64, results []*shardResult,
 	inconclusive := []string{}
 	excludedAfterCrash := 0
 	resourceInconclusive := 0
+	suspectedHangs := []string{}
 	rule := ""
 	var assumptions []string
 
@@ -513,17 +526,29 @@ func merge(id string, sp spec, tier string, seed uint64, results []*shardResult,
 		}
 		for _, d := range r.deaths {
 			// a dead process is attributed to its open case
+			if d.Class == "hang" {
+				suspectedHangs = append(suspectedHangs, d.Journal)
+				continue
+			}
 			if d.Class == "killed" {
 				inconclusive = append(inconclusive, fmt.Sprintf("shard %d died without a Go fault message (exit %d)", r.idx, r.exit))
 				continue
 			}
-			if d.Class == "oom-small" {
-				// heap grew to the harness limit; not a verdict about fq
-				resourceInconclusive++
+			if strings.HasPrefix(d.Class, "oom") {
+				// the harness's own ulimit can manufacture an out-of-memory
+				// death: re-run the open case alone under a 48 GiB limit and
+				// count it only if the process still dies
 				if !sp.Isolate {
+					resourceInconclusive++
 					inconclusive = append(inconclusive, fmt.Sprintf("shard %d ran into the harness memory limit", r.idx))
+					continue
 				}
-				continue
+				d2, died := confirmDeath(id, r.dir, d, tier, seed, r.idx, len(results))
+				if !died {
+					resourceInconclusive++
+					continue
+				}
+				d = d2
 			}
 			excludedAfterCrash++
 			if matchKnown(known, d.Sig, excluded) {
@@ -605,6 +630,7 @@ func merge(id string, sp spec, tier string, seed uint64, results []*shardResult,
 		"excluded_known":         excluded,
 		"excluded_after_crash":   excludedAfterCrash,
 		"resource_inconclusive":  resourceInconclusive,
+		"suspected_hangs":        suspectedHangs,
 		"shards":                 len(results),
 		"cases_per_test":         tests,
 		"violation_signatures":   keys(seen),
@@ -650,6 +676,49 @@ func merge(id string, sp spec, tier string, seed uint64, results []*shardResult,
 		return 2
 	}
 	return 0
+}
+
+// confirmDeath replays a journalled case alone in a fresh process with a large
+// memory limit; it reports whether the process died again with a Go fault.
+func confirmDeath(id, shardDir string, d death, tier string, seed uint64, shard, nsh int) (death, bool) {
+	bin := filepath.Join(root, "work", id, strings.ToLower(id)+".test")
+	rp := filepath.Join(shardDir, fmt.Sprintf("confirm-%016x.json", harness.HashBytes([]byte(d.Journal))))
+	b, _ := json.Marshal(map[string]any{"property": id, "test": "process-death", "case": map[string]any{"journal": d.Journal}})
+	_ = os.WriteFile(rp, b, 0o644)
+	logPath := rp + ".log"
+	sh := fmt.Sprintf("ulimit -v %d; exec \"$0\" \"$@\"", 48*1024*1024)
+	cmd := exec.Command("sh", "-c", sh, bin, "-test.run=^TestReplay$", "-test.timeout=0", "-test.count=1")
+	cmd.Dir = shardDir
+	cmd.Env = append(os.Environ(), "VERIF_TIER="+tier, fmt.Sprintf("VERIF_SEED=%d", seed), "VERIF_ROOT="+root,
+		"VERIF_REPLAY="+rp, "VERIF_NOWRITE_REPLAY=1", "GOTRACEBACK=all", "VERIF_FRAG="+rp+".frag")
+	cmd.SysProcAttr = &syscall.SysProcAttr{Setpgid: true}
+	lf, _ := os.Create(logPath)
+	cmd.Stdout, cmd.Stderr = lf, lf
+	if err := cmd.Start(); err != nil {
+		lf.Close()
+		return d, false
+	}
+	done := make(chan error, 1)
+	go func() { done <- cmd.Wait() }()
+	var err error
+	select {
+	case err = <-done:
+	case <-time.After(180 * time.Second):
+		_ = syscall.Kill(-cmd.Process.Pid, syscall.SIGKILL)
+		<-done
+		lf.Close()
+		return d, false
+	}
+	lf.Close()
+	if err == nil {
+		return d, false
+	}
+	lt := tail(logPath, 120)
+	class, sig := classifyDeath(lt)
+	if class == "killed" || class == "hang" {
+		return d, false
+	}
+	return death{Journal: d.Journal, LogTail: lt, Class: class + "-confirmed-alone-48GiB", Sig: sig}, true
 }
 
 func keys(m map[string]bool) []string {
